@@ -9,6 +9,7 @@ package mod_doh
 import (
 	"bytes"
 	"encoding/base64"
+	"io"
 	"io/ioutil"
 	"net"
 	"net/url"
@@ -150,6 +151,76 @@ func VerifC56_get() {
 		return
 	}
 	vrt.Assert(err == nil && msg != nil, "C56/valid-get-accepted")
+	checkQueryC56(msg)
+	checkSubnetC56(msg, req.RemoteAddr.IP, 0)
+}
+
+// ---------------------------------------------------------------- focused checks (seeded-change review)
+
+// segReaderC56 delivers a body in pieces of at most seg bytes (TCP segments / TLS records / chunks).
+type segReaderC56 struct {
+	data []byte
+	pos  int
+	seg  int
+}
+
+func (r *segReaderC56) Read(p []byte) (int, error) {
+	if r.pos >= len(r.data) {
+		return 0, io.EOF
+	}
+	n := len(r.data) - r.pos
+	if n > r.seg {
+		n = r.seg
+	}
+	if n > len(p) {
+		n = len(p)
+	}
+	copy(p, r.data[r.pos:r.pos+n])
+	r.pos += n
+	return n, nil
+}
+func (r *segReaderC56) Close() error { return nil }
+
+// VerifC56_postFraming: how the POST body reaches the unpacker.
+//  part 0, segmented bodies: the valid query arrives in pieces of 1, 12 (= the DNS header), 20, 28 or
+//    29 bytes, with Content-Length known (29) or unknown (-1, chunked): it is forwarded complete.
+//  part 1, oversized bodies whose first maxPostMsgLength bytes are not a message of their own (limit
+//    lowered to 5, inside the DNS header, or 26, inside the question's type field; a cut inside the
+//    name ends in miekg/dns' ErrBuf, a package-level value the engine does not initialise, and a cut
+//    at 27/28 is accepted by miekg/dns as a message with a short question): rejected, whether the length is declared
+//    (Content-Length 29), unknown (-1, chunked) or unset (0). (Oversized bodies whose prefix happens
+//    to be a complete message are the known class C56-oversized-post-truncated, see VerifC56_post.)
+func VerifC56_postFraming() {
+	part := vrt.Choose("part", 2)
+	seg := []int{1, 12, 20, 28, 29}[vrt.Choose("segment", 5)]
+	cl := int64(-1)
+	switch vrt.Choose("contentLength", 3) {
+	case 1:
+		cl = int64(len(queryC56))
+	case 2:
+		cl = 0 // not set by the caller (body present)
+	}
+	saved := maxPostMsgLength
+	if part == 1 {
+		maxPostMsgLength = int64([]int{5, 26}[vrt.Choose("limit", 2)])
+	}
+	hreq := &bfe_http.Request{Method: "POST", Header: bfe_http.Header{}, ContentLength: cl,
+		Body: &segReaderC56{data: append([]byte{}, queryC56...), seg: seg}}
+	if cl < 0 {
+		hreq.TransferEncoding = []string{"chunked"}
+	}
+	req := &bfe_basic.Request{HttpRequest: hreq}
+	req.RemoteAddr = &net.TCPAddr{IP: net.IP{10, 0, 0, 7}, Port: 1234}
+	msg, err := RequestToDnsMsg(req)
+	maxPostMsgLength = saved
+	if part == 1 {
+		vrt.Assert(err != nil && msg == nil, "C56/oversized-post-never-forwarded")
+		return
+	}
+	vrt.Assert(err == nil && msg != nil, "C56/segmented-post-accepted")
+	if err != nil || msg == nil {
+		return
+	}
 	checkQueryC56(msg)
 	checkSubnetC56(msg, req.RemoteAddr.IP, 0)
 }
